@@ -11,8 +11,9 @@ def one(d):
         return d, None
     tmp = tempfile.mkdtemp(prefix="mx_")
     try:
-        subprocess.run(["git", "-C", "/repo", "worktree", "add", "-q", "--detach", tmp, "HEAD"], check=True, capture_output=True)
-        r = subprocess.run(["git", "-C", tmp, "apply", patch], capture_output=True, text=True)
+        shutil.rmtree(tmp, ignore_errors=True)
+        shutil.copytree("/repo", tmp, ignore=shutil.ignore_patterns(".git", "__pycache__", ".pytest_cache", "*.egg-info"))
+        r = subprocess.run(["git", "apply", patch], cwd=tmp, capture_output=True, text=True)
         if r.returncode:
             return d, "NOAPPLY " + r.stderr.strip()[:80]
         env = dict(os.environ, AMSHAN_REPO=tmp)
@@ -24,7 +25,6 @@ def one(d):
         except Exception:
             return d, "ERR " + r.stderr[-200:]
     finally:
-        subprocess.run(["git", "-C", "/repo", "worktree", "remove", "--force", tmp], capture_output=True)
         shutil.rmtree(tmp, ignore_errors=True)
 
 if __name__ == "__main__":
